@@ -222,7 +222,9 @@ func corpusMain(args []string) error {
 		var stderr bytes.Buffer
 		c.Stderr = &stderr
 		c.Stdout = &stderr
+		killed, stop := memWatch(c)
 		err := c.Run()
+		stop()
 		if ctx.Err() != nil {
 			u.gen.Timeout = true
 		}
@@ -233,6 +235,11 @@ func corpusMain(args []string) error {
 			} else {
 				u.gen.Exit = -1
 			}
+		}
+		if *killed {
+			u.gen.Exit = 137
+			stderr.Reset() // (a Go crash dump of many thousand lines)
+			stderr.WriteString(memKilledMsg)
 		}
 		u.gen.Stderr = trunc(stderr.String(), 2000)
 		u.gen.Diags = parseDiags(stderr.String())
